@@ -102,7 +102,7 @@ def depth_for(tier, init):
 
 
 def blocks(tier):
-    return [{"init": i, "depth": depth_for(tier, i)} for i in inits(tier)]
+    return [{"init": i, "depth": depth_for(tier, i)} for i in inits(tier)] + [{"decreasing": 1, "tier": tier}]
 
 
 # ---------------------------------------------------------------- state
@@ -425,7 +425,58 @@ def step_fn(st, op, out):
     return St(st.init, r, ks[0], ks[-1], newvals, st.depth + 1)
 
 
+def run_decreasing(case):
+    """The width functions on a regular axis that counts DOWN (negative step): exactly `width` samples, an arithmetic progression
+    with the axis' own step, the original samples kept at their coordinates as a block at the start / centre / end, fill elsewhere."""
+    out = Out(case)
+    n, step, w, pos, attr = case["n"], case["step"], case["w"], case["pos"], case["attr"]
+    coords = np.array([10.0 + step * i for i in range(n)])
+    var = xr.Variable("x", coords, attrs={"step": step} if attr else {})
+    arr = xr.DataArray(np.arange(n) + 1.0, dims=["x"], coords={"x": var})
+    res = call(adjust_dim_width, arr, "x", w, fill_value=-7.0, position=pos)
+    out.transitions = out.validated = 1
+    out.nontrivial = w != n
+    cls = {"fn": "adjust_width", "axis": "decreasing", "pos": pos, "dir": "same" if w == n else "crop" if w < n else "extend"}
+    if res[0] != "ok":
+        out.fail("no_crash", list(res), "a DataArray", dict(cls, outcome=res[0]))
+        return out
+    r = res[1]
+    c = [float(v) for v in r.coords["x"].data]
+    d = [float(v) for v in r.data]
+    out.expect("size", len(c) == w, len(c), w, cls)
+    prog = all(abs((c[i + 1] - c[i]) - step) <= 1e-9 * abs(step) for i in range(len(c) - 1))
+    out.expect("coords_on_lattice", prog, c[:8], "an arithmetic progression with step %g" % step, cls)
+    if len(c) == w and prog:
+        orig = {float(x): float(v) for x, v in zip(coords, arr.data)}
+        kept = [i for i, x in enumerate(c) if any(abs(x - y) <= 1e-9 for y in orig)]
+        okd = all(abs(d[i] - orig[min(orig, key=lambda y: abs(y - c[i]))]) == 0 for i in kept)
+        okf = all(d[i] == -7.0 for i in range(w) if i not in kept)
+        out.expect("data_stays_on_coordinate", okd and len(kept) == min(n, w), {"coords": c[:8], "data": d[:8]}, "original samples at their coordinates", cls)
+        out.expect("fill_elsewhere", okf, d[:8], "fill value on every new sample", cls)
+        if kept:
+            left, right = kept[0], w - 1 - kept[-1]
+            if w >= n:
+                placed = (pos == "start" and left == 0) or (pos == "end" and right == 0) or (pos == "center" and abs(left - right) <= 1)
+            else:
+                first = int(round((c[0] - coords[0]) / step))
+                l2, r2 = first, n - w - first
+                placed = (pos == "start" and l2 == 0) or (pos == "end" and r2 == 0) or (pos == "center" and abs(l2 - r2) <= 1)
+            out.expect("placement", placed, {"coords": c[:8]}, pos, cls)
+    out.klass = "decreasing:%s" % ("ok" if not out.viol else "viol")
+    return out
+
+
 def run_block(block, rec):
+    if block.get("decreasing"):
+        for n in (1, 4, 5):
+            for step in (-1.0, -0.5):
+                for attr in (True, False):
+                    if not attr and n < 2:
+                        continue
+                    for w in range(1, n + 4):
+                        for pos in ("start", "center", "end"):
+                            rec.add(run_decreasing({"decreasing": 1, "n": n, "step": step, "w": w, "pos": pos, "attr": attr}))
+        return
     init = block["init"]
     st0 = make_initial(init)
 
@@ -448,6 +499,8 @@ def run_block(block, rec):
 
 
 def replay_case(case):
+    if "decreasing" in case:
+        return run_decreasing(case)
     st = make_initial(case["init"])
     merged = Out(case)
     for op in case["history"]:
